@@ -55,10 +55,25 @@ func sysFaultScenario(seed uint64, idx int, root string) []sysRes {
 	var out []sysRes
 	nJobs := len(ref.Jobs)
 	for k := 0; k < 3; k++ {
+		// every third scenario: the REAL RemoteWorker (retry loop with its real back-off sleeps, its classification of
+		// what tier 2's real toGRPCError answers) instead of the harness worker; only there can an execution be
+		// interrupted by tier 2's per-block timeout ("exec")
+		real := idx%3 == 0 && k < 2
+		kinds := []string{"before", "mid", "after"}
+		if real {
+			kinds = []string{"before", "mid", "after", "exec", "exec"}
+		}
 		var faults []sys.Fault
 		var desc []string
+		execs := map[int]int{}
 		for f := 0; f < rng.Range(1, 3) && nJobs > 0; f++ {
-			ft := sys.Fault{Job: rng.Intn(nJobs), Where: []string{"before", "mid", "after"}[rng.Intn(3)]}
+			ft := sys.Fault{Job: rng.Intn(nJobs), Where: kinds[rng.Intn(len(kinds))]}
+			if ft.Where == "exec" {
+				if execs[ft.Job] == 2 { // RemoteWorker gives a job up at its third execution time-out (by design)
+					ft.Where = "mid"
+				}
+				execs[ft.Job]++
+			}
 			faults = append(faults, ft)
 			desc = append(desc, fmt.Sprintf("%s@job%d", ft.Where, ft.Job))
 		}
@@ -66,9 +81,20 @@ func sysFaultScenario(seed uint64, idx int, root string) []sysRes {
 			break
 		}
 		d := filepath.Join(dir, fmt.Sprintf("k%d", k))
-		r := w.Run(d, sc.Req(true, rng.Range(1, 3)), sys.Opts{Sched: rng.Fork(), Faults: faults, Timeout: to})
+		runTo := to
+		if real {
+			runTo = 45 * time.Second
+			desc = append(desc, "realworker")
+		}
+		r := w.Run(d, sc.Req(true, rng.Range(1, 3)), sys.Opts{Sched: rng.Fork(), Faults: faults, Timeout: runTo, RealWorker: real})
 		ans := sysNonEmpty(r)
 		res := sysRes{line: base + " | faults " + strings.Join(desc, ","), ans: ans, counts: []string{"sys:transient", fmt.Sprintf("sys:retries:%d", min(r.Retries, 5))}}
+		if real {
+			res.counts = append(res.counts, "sys:realworker")
+			for _, c := range r.Tier2Codes {
+				res.counts = append(res.counts, "sys:tier2-code:"+c)
+			}
+		}
 		if ans != refAns {
 			res.fails = append(res.fails, [2]string{"C16/transient-faults-change-output", fmt.Sprintf("faults %v (retries %d): fault-free %.300s || with faults %.300s", desc, r.Retries, refAns, ans)})
 		}
